@@ -342,6 +342,10 @@ type Memory struct {
 	tr               *tracer
 	cacheTrackedIdxs []int
 	lastRec          *amhist.TimeRecord
+	// write-behind batches land one at a time and never take the stored id
+	// sequence back
+	writeMx       sync.Mutex
+	writtenNextId uint64
 }
 
 func NewMemory(
@@ -686,19 +690,26 @@ func (m *Memory) writeDb(rLocked bool) {
 			defer m.syncMx.RUnlock()
 		}
 
+		// batches run in their own goroutines and may get here out of order
+		m.writeMx.Lock()
+		defer m.writeMx.Unlock()
+
 		wb := m.Db.NewWriteBatch()
 
-		// update machine record
-		encMach, err := m.encode(machRec)
-		if err != nil {
-			wb.Cancel()
-			m.onErr(err)
-			return
-		}
-		if err := wb.Set(machineKey(machRec.MachId), encMach); err != nil {
-			wb.Cancel()
-			m.onErr(err)
-			return
+		// update machine record (unless a newer batch has stored a newer one)
+		if machRec.NextId >= m.writtenNextId {
+			encMach, err := m.encode(machRec)
+			if err != nil {
+				wb.Cancel()
+				m.onErr(err)
+				return
+			}
+			if err := wb.Set(machineKey(machRec.MachId), encMach); err != nil {
+				wb.Cancel()
+				m.onErr(err)
+				return
+			}
+			m.writtenNextId = machRec.NextId
 		}
 
 		for i, recTime := range times {
